@@ -186,7 +186,7 @@ def R2_single_via(ctx):
             if not nx or not dupc or not simc:
                 continue
             recv = deep_strip(tm.operand(nx[0].args[0], nx[0].bb))
-            over_all = contains(recv, lambda s: s == sol) and not [x for x in calls_in(recv) if re.search(r"Iterator::(take|skip|filter|step_by|rev)$", x[1])]
+            over_all = contains(recv, lambda s: s == sol) and not [x for x in calls_in(recv) if re.search(r"Iterator>?::(take|skip|filter|step_by|rev)$", x[1])]
             if not over_all or not all(c.bb in blocks for c in dupc + simc) or not b.dominates(nx[0].bb, fb):
                 continue
             hits = 0
@@ -239,7 +239,7 @@ def R2_single_via(ctx):
         a = [nosite(deep_strip(tm.operand(x, tcs[0].bb))) for x in tcs[0].args]
         okt = a[1] == ("field", ("arg", 1), "k") and a[2][0] == "call" and a[2][1].endswith("::len") and a[2][2][0] == nosite(sol) and b.dominates(tcs[0].bb, pops[0].bb)
     ctx.check(okt, "criteria-each-turn", "the termination criteria are not tested with (k, number of accepted routes) before every pop", b.where())
-    tk = [c for c in b.calls() if c.callee and c.callee.endswith("Iterator::take")]
+    tk = [c for c in b.calls() if c.callee and itm(c.callee, "take")]
     okk = len(tk) == 1 and nosite(deep_strip(tm.operand(tk[0].args[1], tk[0].bb))) == ("field", ("arg", 1), "k") and contains(deep_strip(tm.operand(tk[0].args[0], tk[0].bb)), lambda s: s == sol)
     ctx.check(okk, "take-k", "the result is not the accepted routes truncated to k", b.where(), detail="solution.into_iter().take(k)")
 
